@@ -1,0 +1,50 @@
+//go:build verif
+
+package ir
+
+import (
+	"os"
+	"runtime"
+	"strconv"
+	"sync/atomic"
+	"time"
+)
+
+// Schedule widening for the verification harness (property C18): when the environment
+// variable VERIF_C18_YIELD holds a number, every call of verifYield pseudo-randomly (the
+// number is the seed) does nothing, yields the processor or sleeps for a few
+// microseconds. Without the variable it does nothing.
+
+var (
+	verifYieldOn   bool
+	verifYieldSeed uint64
+	verifYieldCtr  atomic.Uint64
+)
+
+func init() {
+	if s := os.Getenv("VERIF_C18_YIELD"); s != "" {
+		if n, err := strconv.ParseUint(s, 10, 64); err == nil {
+			verifYieldOn = true
+			verifYieldSeed = n
+		}
+	}
+}
+
+func verifYield() {
+	if !verifYieldOn {
+		return
+	}
+	z := verifYieldSeed + verifYieldCtr.Add(1)*0x9E3779B97F4A7C15
+	z = (z ^ (z >> 30)) * 0xBF58476D1CE4E5B9
+	z = (z ^ (z >> 27)) * 0x94D049BB133111EB
+	z ^= z >> 31
+	switch z % 8 {
+	case 0, 1, 2:
+	case 3, 4, 5:
+		runtime.Gosched()
+	case 6:
+		time.Sleep(time.Duration(z>>8%50) * time.Microsecond)
+	default:
+		time.Sleep(time.Duration(z>>8%400) * time.Microsecond)
+	}
+}
